@@ -248,7 +248,7 @@ Lemma sim_gets P d i : good_params P -> inv P d -> sim_goal P d (GetStruct i).
 Proof.
   intros GP I. unfold sim_goal. cbn [lstep step]. change (l_kind (abs d)) with (d_kind d). rewrite (abs_len _ _ I).
   destruct (ekind_eqb (d_kind d) EStruct) eqn:E; cbn [negb]; [|reflexivity].
-  destruct (in_range i (d_len d)) eqn:Er; cbn [negb]; [|exists d; auto].
+  destruct (in_range i (d_len d)) eqn:Er; cbn [negb]; [|destruct (p_struct_oob_aborts P); [reflexivity|exists d; auto]].
   apply in_range_nat in Er. destruct Er as [Er _].
   pose proof I as (H1 & H2 & H3 & H4 & H5 & H6).
   destruct (d_data d) as [els|] eqn:Hd; [|destruct H6 as (H6 & _); lia].
@@ -290,7 +290,7 @@ Proof.
   change (l_esize (abs d)) with (d_esize d). rewrite (abs_len _ _ I).
   destruct (ekind_eqb (d_kind d) EStruct) eqn:E; cbn [negb]; [|reflexivity].
   destruct (N.eqb (d_esize d) (N.of_nat (length bs))) eqn:E2; cbn [negb]; [|reflexivity].
-  destruct (in_range i (d_len d)) eqn:Er; cbn [negb]; [|exists d; auto].
+  destruct (in_range i (d_len d)) eqn:Er; cbn [negb]; [|destruct (p_struct_oob_aborts P); [reflexivity|exists d; auto]].
   apply in_range_nat in Er. destruct Er as [Er _].
   apply N.eqb_eq in E2.
   pose proof I as (H1 & H2 & H3 & H4 & H5 & H6).
@@ -777,7 +777,7 @@ Proof.
   intros GP I. unfold sim_goal. cbn [lstep step]. change (l_kind (abs d)) with (d_kind d). rewrite (abs_len _ _ I).
   destruct (ekind_eqb (d_kind d) EStruct) eqn:Ek; cbn [negb]; [|reflexivity].
   destruct (in_range j (d_len d)) eqn:Ej; cbn [negb]; [|reflexivity].
-  destruct (in_range i (d_len d)) eqn:Ei; cbn [negb]; [|exists d; auto].
+  destruct (in_range i (d_len d)) eqn:Ei; cbn [negb]; [|destruct (p_struct_oob_aborts P); [reflexivity|exists d; auto]].
   apply in_range_nat in Ej. destruct Ej as [Ej _]. apply in_range_nat in Ei. destruct Ei as [Ei _]. apply ekind_eqb_eq in Ek.
   destruct (struct_elem P d j I Ek Ej) as (els & bs & Hd & Ec & Hsz & Hpos & Hn & Hc).
   rewrite Hd. cbn [rd]. rewrite Ec.
